@@ -122,18 +122,18 @@ func (t *KernMethod) TransferGovernTokens(ctx contract.KContext) (*contract.Resp
 	}
 	senderBalance.TotalBalance.Sub(senderBalance.TotalBalance, amount)
 
-	// 设置receiver余额
+	// 查询receiver余额并更新: an existing receiver keeps its whole record
+	// (total and locked balances), only the total grows by amount
 	receiverBalance := utils.NewGovernTokenBalance()
-	receiverBalance.TotalBalance.Set(amount)
-
-	// 查询receiver余额并更新
 	receiverKey := utils.MakeAccountBalanceKey(string(receiverBuf))
 	receiverBalanceBuf, err := ctx.Get(utils.GetGovernTokenBucket(), []byte(receiverKey))
 	if err == nil {
-		receiverBalanceOld := &utils.GovernTokenBalance{}
-		json.Unmarshal(receiverBalanceBuf, receiverBalanceOld)
-		receiverBalance.TotalBalance.Add(receiverBalance.TotalBalance, receiverBalanceOld.TotalBalance)
+		err = json.Unmarshal(receiverBalanceBuf, receiverBalance)
+		if err != nil {
+			return nil, fmt.Errorf("transfer gov tokens failed, parse receiver balance error")
+		}
 	}
+	receiverBalance.TotalBalance.Add(receiverBalance.TotalBalance, amount)
 
 	// 更新sender余额
 	senderBalanceBuf, _ := json.Marshal(senderBalance)
